@@ -4,6 +4,8 @@ import sys, os, shutil, json
 sid, prop, src = sys.argv[1:4]
 needs = ' '.join(sys.argv[4:])
 tag = os.path.basename(src.rstrip('/'))
+if tag.endswith('-out'):
+    tag = tag[:-4]
 dst = os.path.join(os.path.dirname(os.path.dirname(os.path.abspath(__file__))), 'seeded', sid)
 os.makedirs(dst, exist_ok=True)
 for f in ('patch.diff', 'demo.cpp', 'notes.md'):
